@@ -113,6 +113,90 @@ def shard(ctx):
                                        for i in range(25)]
         text = gen.pfile(f)
         check_pair(ctx, text, docs, rng)
+        if t % 2 == 0:
+            # several rules files x several data files: every format / entry point must give the same exit code and the same per-pair verdicts
+            texts = [text] + [gen.pfile(gen.gen_file(rng, doc, o)) for _ in range(rng.randint(1, 2))]
+            rng.shuffle(texts)
+            dtexts = [docs] + [json.dumps(gen.gen_doc(rng)) for _ in range(rng.randint(0, 2))]
+            rng.shuffle(dtexts)
+            check_multi(ctx, texts, dtexts)
+
+
+def check_multi(ctx, texts, dtexts):
+    case = {"kind": "multi", "rules": texts, "data": dtexts}
+    fl = {}
+    R, D = [], []
+    for i, tx in enumerate(texts):
+        fl["r%d.guard" % i] = tx
+        R += ["-r", "{S}/r%d.guard" % i]
+    for i, dx in enumerate(dtexts):
+        fl["d%d.json" % i] = dx
+        D += ["-d", "{S}/d%d.json" % i]
+    payload = json.dumps({"rules": texts, "data": dtexts})
+
+    def run(argv, stdin=""):
+        return ctx.w.run({"k": "cli", "argv": argv, "files": fl, "stdin": stdin})
+    base = run(["validate"] + R + D + ["--structured", "-S", "none", "-o", "json"])
+    if base.get("r") != "ok":
+        ctx.inconclusive("crash" if core.crash_signature(base) else "baseline-error")
+        return
+    try:
+        reps = json.loads(base["out"])
+    except ValueError:
+        ctx.violation("multi:structured-json:malformed", "structured JSON output does not parse", case)
+        return
+    statuses = [r.get("status") for r in reps]
+    want = 19 if "FAIL" in statuses else 0
+    ctx.res.cases += 1
+    ctx.res.counts["multi_groups"] += 1
+    if base["code"] != want:
+        ctx.violation("multi:exit-vs-file-status:s-json", "file statuses %s but exit %s" % (statuses, base["code"]), case)
+        return
+    # the pairs that FAIL, by position: a FAIL that is not the last pair evaluated must still decide the exit code
+    ctx.res.distinct.add(("multi", len(texts), len(dtexts), tuple(statuses)))
+    configs = {
+        "multi:s-yaml": (["validate"] + R + D + ["--structured", "-S", "none", "-o", "yaml"], ""),
+        "multi:s-junit": (["validate"] + R + D + ["--structured", "-S", "none", "-o", "junit"], ""),
+        "multi:s-sarif": (["validate"] + R + D + ["--structured", "-S", "none", "-o", "sarif"], ""),
+        "multi:plain": (["validate"] + R + D + ["-S", "all"], ""),
+        "multi:plain-none": (["validate"] + R + D + ["-S", "none"], ""),
+        "multi:plain-json": (["validate"] + R + D + ["-S", "fail", "-o", "json"], ""),
+        "multi:plain-yaml-verbose": (["validate"] + R + D + ["-o", "yaml", "-v"], ""),
+        "multi:plain-print-json": (["validate"] + R + D + ["-S", "none", "-p"], ""),
+        "multi:payload-plain": (["validate", "--payload", "-S", "all"], payload),
+        "multi:payload-plain-none": (["validate", "--payload", "-S", "none"], payload),
+        "multi:payload-plain-json": (["validate", "--payload", "-o", "json"], payload),
+        "multi:payload-structured": (["validate", "--payload", "--structured", "-S", "none", "-o", "json"], payload),
+        "multi:payload-structured-junit": (["validate", "--payload", "--structured", "-S", "none", "-o", "junit"], payload),
+    }
+    for cfg, (argv, stdin) in configs.items():
+        r = run(argv, stdin)
+        ctx.res.cases += 1
+        if r.get("r") != "ok":
+            if core.crash_signature(r):
+                ctx.inconclusive("crash")
+            else:
+                ctx.violation("%s:error" % cfg, "run failed where the structured run succeeded: %s" % r.get("emsg", "")[:200], dict(case, cfg=cfg))
+            continue
+        ctx.res.distinct.add((cfg, r["code"]))
+        if r["code"] != base["code"]:
+            ctx.violation("%s:exit" % cfg, "exit %s vs structured-JSON baseline %s (file statuses %s)" % (r["code"], base["code"], statuses), dict(case, cfg=cfg))
+            continue
+        if cfg in ("multi:payload-structured",):
+            try:
+                preps = json.loads(r["out"])
+            except ValueError:
+                ctx.violation("%s:malformed" % cfg, "payload structured output malformed", dict(case, cfg=cfg))
+                continue
+            a = sorted(json.dumps(obs_from_report(x), sort_keys=True) for x in reps)
+            b = sorted(json.dumps(obs_from_report(x), sort_keys=True) for x in preps)
+            if a != b:
+                ctx.violation("%s:reports" % cfg, "per-data-file verdicts differ between files and payload entry points", dict(case, cfg=cfg))
+        if cfg in ("multi:plain", "multi:payload-plain"):
+            # one summary block per (data file, rules file): the multiset of block statuses is implied by the per-rule statuses of the baseline
+            blocks = re.findall(r"^.* Status = (PASS|FAIL|SKIP)\s*$", r["out"], re.M)
+            if ("FAIL" in blocks) != ("FAIL" in statuses):
+                ctx.violation("%s:file-status" % cfg, "summary blocks %s vs structured file statuses %s" % (blocks, statuses), dict(case, cfg=cfg))
 
 
 def check_pair(ctx, text, docs, rng):
@@ -344,6 +428,9 @@ def replay(case, w):
         def violation(self, sig, what, rp):
             found.append(sig)
     c = Ctx(w, 0, 1, 1, "thorough", res, {"prop": "C07"})
+    if case.get("kind") == "multi":
+        check_multi(c, case["rules"], case["data"])
+        return not found, "violations: %s" % sorted(set(found))
     check_pair(c, case["rules"], case["data"], random.Random(1))
     return not found, "violations: %s" % sorted(set(found))
 
@@ -356,11 +443,12 @@ def main(tier, seed):
     fmts = ["s-json", "s-yaml", "summary-table", "plain-json", "print-json", "verbose-tree", "entry-run_checks-report", "entry-ffi-report", "entry-payload-structured", "entry-stdin"]
     full = sum(1 for f in fmts if all(any(x.startswith(f) and x.endswith(":" + s) for x in seen) for s in ("PASS", "FAIL", "SKIP")))
     floor = {"cases": (res.cases, 3000), "formats_with_PASS_FAIL_SKIP": (full, len(fmts)),
-             "junit_marks": (len([x for x in seen if x.startswith("s-junit:")]), 2), "library_reports_over_8KiB": (res.counts["library_reports_over_8KiB"], 5)}
+             "junit_marks": (len([x for x in seen if x.startswith("s-junit:")]), 2), "library_reports_over_8KiB": (res.counts["library_reports_over_8KiB"], 5),
+             "multi_file_groups": (res.counts["multi_groups"], 60)}
     return core.finish("C07", tier, seed, res, t0,
                        rule="random programs x documents (JSON-compatible scalars) x ~70 configurations: structured json/yaml/sarif/junit; plain single-line/json/yaml "
                             "x -S {all,pass,fail,skip,none,pass+fail,fail+skip} x {-, -v, -p}; entry points files / stdin / --payload (plain+structured) / run_checks / FFI "
-                            "(verbose and report); every output parsed back independently and compared with the structured-JSON baseline; distinct = (configuration, file status, exit)",
+                            "(verbose and report); every output parsed back independently and compared with the structured-JSON baseline; plus groups of 2-3 rules files x 1-3 data files through 13 configurations (exit code, per-pair verdicts); distinct = (configuration, file status, exit)",
                        floor=floor,
                        assumptions=["console reporters legitimately show only what -S selects: containment there, equality for -S all",
                                     "the Lambda handler is covered through run_checks with its exact argument pattern (it cannot be linked)"])
